@@ -1,0 +1,40 @@
+//go:build verif
+
+// Contracts for the acv verifier (/verif). Comment-only file: no executable code.
+
+package backend
+
+// within(root, p): p is the (cleaned) root itself or lies below it.
+//@ spec sep() string = "/"
+//@ spec cleanRoot(root string) string = gouf_string("path/filepath.Clean", root)
+//@ spec within(root string, p string) bool = p == cleanRoot(root) || gouf_bool("strings.HasPrefix", p, gouf_string("strings.TrimSuffix", cleanRoot(root), sep()) + sep())
+
+// Confinement: whatever key path is given, an accepted OS path lies inside the root directory, and every os.*
+// call of the storage operations receives only such paths.
+//@ func (b *DirectoryBackend) osPath(path string) (out string, err error)
+//@   props C07 C14
+//@   safety
+//@   ensures confined: err == nil ==> within(b.root, out)
+//@   ensures rejected-empty: err != nil ==> out == ""
+//@   modifies nothing
+
+//@ func (b *DirectoryBackend) Get(path string) (data []byte, err error)
+//@   props C07
+//@   at call ioutil.ReadFile : assert ret(DirectoryBackend.osPath)[1] == nil && arg[0] == ret(DirectoryBackend.osPath)[0]
+//@   at call DirectoryBackend.osPath : assert arg[0] == path
+
+//@ func (b *DirectoryBackend) Put(path string, data []byte) (err error)
+//@   props C07 C08
+//@   ensures failed-write-removes-file: called(File.Write) && ret(File.Write)[1] != nil ==> called(os.Remove) && err != nil
+//@   ensures failed-sync-removes-file: called(File.Sync) && ret(File.Sync)[0] != nil ==> called(os.Remove) && err != nil
+//@   ensures success-keeps-file: err == nil ==> !called(os.Remove) && called(File.Sync) && ret(File.Sync)[0] == nil
+//@   at call os.OpenFile : assert ret(DirectoryBackend.osPath)[1] == nil && arg[0] == ret(DirectoryBackend.osPath)[0]
+//@   at call os.Remove : assert arg[0] == ret(DirectoryBackend.osPath)[0]
+//@   at call File.Write : assert sameslice(arg[0], data)
+//@   at call DirectoryBackend.osPath : assert arg[0] == path
+
+//@ func (b *DirectoryBackend) Rename(oldpath string, newpath string) (err error)
+//@   props C07 C08
+//@   at call os.Rename : assert ret(DirectoryBackend.osPath#0)[1] == nil && ret(DirectoryBackend.osPath#1)[1] == nil && arg[0] == ret(DirectoryBackend.osPath#0)[0] && arg[1] == ret(DirectoryBackend.osPath#1)[0]
+//@   at call DirectoryBackend.osPath#0 : assert arg[0] == oldpath
+//@   at call DirectoryBackend.osPath#1 : assert arg[0] == newpath
